@@ -55,6 +55,23 @@ def _IPv4Unicast():
     return IPv4Unicast
 
 
+def _srv6_subs(tlv_type, head, b):
+    """the sub-TLV list of an SRv6 End.X SID (1106) / SRv6 Locator (1162) TLV of the BGP-LS attribute, decoded through
+    LinkState.unpack: b is the concatenation of the sub-TLVs"""
+    v = bytes(head) + b
+    r = LinkState.unpack(struct.pack('!HH', tlv_type, len(v)) + v, bgpls_pro_id=2).dict()[29]
+    assert len(r) == 1, r
+    body = r[0].get('value', r[0])
+    for k, val in (body.items() if isinstance(body, dict) else []):
+        if k == 'sub_tlvs':
+            return val
+    # the TLV's dictionary has one key (its name) holding the fields
+    for val in r[0].values():
+        if isinstance(val, dict) and 'sub_tlvs' in val:
+            return val['sub_tlvs']
+    raise AssertionError('no sub_tlvs in %r' % (r,))
+
+
 DECODERS = {
     'v4prefix': lambda b: items(Update.parse_prefix_list(b)),
     'v6prefix': lambda b: items(IPv6Unicast.parse(b)),
@@ -78,6 +95,8 @@ DECODERS = {
     'lstlv': lambda b: items(LinkState.unpack(b, bgpls_pro_id=2).dict()[29]),
     'sidtlv': lambda b: items(BGPPrefixSID.unpack(b).dict()[40] if hasattr(BGPPrefixSID.unpack(b), 'dict') else BGPPrefixSID.unpack(b)),
     'lsnlri': lambda b: items(BGPLS.parse(b)),
+    'srv6loc_sub': lambda b: items(_srv6_subs(1162, [0] * 8, b)),
+    'srv6endx_sub': lambda b: items(_srv6_subs(1106, [0, 1, 0, 0, 0, 0] + [32, 1, 13, 184] + [0] * 12, b)),
     'pathattr': lambda b: sorted(canon([k, v]) for k, v in Update.parse_attributes(b, True).items()),
     'pathattr2': lambda b: sorted(canon([k, v]) for k, v in Update.parse_attributes(b, False).items()),
 }
